@@ -168,11 +168,16 @@ def run(ctx: Ctx) -> None:
     finally:
         drv.close()
     ctx.partial += [
-        "the laws themselves (same tokens, levels +1/+2, same maps and references) need models of all block rules plus the "
-        "level-equivariance and bsCount-irrelevance lemmas (B, C of the design): decided by the oracle; lemma A (quote_strip) "
-        "and lemma D (nested loop restores the frame) are proved",
+        "PROVED for the modelled sub-parser (code, fence, blockquote, hr, heading, paragraph; C06c.quote_law): for every "
+        "tab-free document D given by its lines, every subset of the optional rules and every maxNesting >= 0, quoting "
+        "every line parses (with one more level allowed) to exactly one block quote over all lines whose content is the "
+        "stream of D with level+1 and the same maps. Method: simulation (C06b) — bsCount is never read on tab-free "
+        "tables, level and maxNesting shift together — instantiated with the lines the quote rule presents to its "
+        "nested run (quoteStrip of '> ' ++ l equals the line record of l up to bsCount).",
+        "NOT PROVED: the list law, the law for rules outside the sub-parser (lheading, reference, html_block, table, "
+        "list inside the quoted document), documents with tabs, and the same-maxNesting form of the law (it differs at "
+        "the nesting limit): decided by the oracle on the implementation",
     ]
-
 
 def search(ctx: Ctx):
     from markdown_it import MarkdownIt
